@@ -11,10 +11,11 @@ Notation dop := (dop (R:=R)). Notation blk := (OpProofs.blk (R:=R)).
 Variable chol_o : nat -> fm -> fm.
 Variable lu_o : nat -> fm -> (nat -> nat) * fm * fm.
 Variable sqrt_o : R -> R.
+Variable plu_sqrt : bool.
 Notation chol := (chol chol_o sqrt_o).
-Notation plu := (plu lu_o sqrt_o).
+Notation plu := (plu lu_o sqrt_o plu_sqrt).
 Notation dense := C11_Decomp.dense.
-Notation pok := (pok lu_o sqrt_o).
+Notation pok := (pok lu_o sqrt_o plu_sqrt).
 Notation lu_spec := (lu_spec lu_o).
 
 Definition p1 (t : dop * dop * dop) := fst (fst t). Definition p2 (t : dop * dop * dop) := snd (fst t). Definition p3 (t : dop * dop * dop) := snd t.
@@ -93,11 +94,16 @@ Proof. intros H. eapply feq_trans; [apply mmul_eye_l_feq|]. eapply feq_trans; [a
 
 Theorem plu_correct : forall e, Pplu e.
 Proof. apply op_ind2; unfold Pplu; try (intros; apply plu_dense; assumption).
-  - (* Diag *) intros n d W Sq OK. cbn [C11_Struct.pok C11_Decomp.plu] in *. unfold plugood, sqrt_diag. cbn [dto_op wf shape den fst].
-    repeat split; auto using permmat_eye, diag_lower, diag_upper. apply plu_leaf_diag; auto.
+  - (* Diag *) intros n d W Sq OK. cbn [C11_Struct.pok C11_Decomp.plu] in *. destruct plu_sqrt.
+    + unfold plugood, sqrt_diag. cbn [dto_op wf shape den fst]. repeat split; auto using permmat_eye, diag_lower, diag_upper. apply plu_leaf_diag; auto.
+    + unfold plugood. cbn [dto_op wf shape den fst]. repeat split; auto using permmat_eye, lower_eye, diag_upper.
+      eapply feq_trans; [apply mmul_eye_l_feq|]. apply mmul_eye_l_feq.
   - (* Ident *) intros n W Sq OK. unfold plugood. cbn [C11_Decomp.plu dto_op wf shape den fst]. repeat split; auto using permmat_eye, lower_eye, upper_eye.
     eapply feq_trans; [apply mmul_eye_l_feq|]. apply mmul_eye_l_feq.
-  - (* Scal *) intros c n W Sq OK. cbn [C11_Struct.pok C11_Decomp.plu] in *. unfold plugood, sqrt_scal. cbn [dto_op shape fst]. destruct (scal_id n (sqrt_o c)) as (W' & S' & D').
+  - (* Scal *) intros c n W Sq OK. cbn [C11_Struct.pok C11_Decomp.plu] in *. destruct plu_sqrt.
+    2:{ unfold plugood. cbn [dto_op wf shape den fst]. repeat split; auto using permmat_eye, lower_eye, (diag_upper n (fun _ => c)).
+        eapply feq_trans; [apply mmul_eye_l_feq|]. apply mmul_eye_l_feq. }
+    unfold plugood, sqrt_scal. cbn [dto_op shape fst]. destruct (scal_id n (sqrt_o c)) as (W' & S' & D').
     repeat split; auto using permmat_eye.
     + eapply lower_ext; [apply feq_sym; exact D'|apply (diag_lower n (fun _ => sqrt_o c))].
     + eapply upper_ext; [apply feq_sym; exact D'|apply (diag_upper n (fun _ => sqrt_o c))].
@@ -120,11 +126,11 @@ Qed.
 (* the factors keep the structure of the input *)
 Theorem structure_kept : forall e,
   dtype (chol e) = mirror (DtTri true) e /\
-  (let '(P, L, U) := plu e in dtype P = mirrorP e /\ dtype L = mirror (DtTri true) e /\ dtype U = mirror (DtTri false) e).
-Proof. apply op_ind2; try (intros; cbn [C11_Decomp.chol C11_Decomp.plu]; try destruct (lu_o _ _) as [[p0 L0] U0]; repeat split; reflexivity).
-  - (* Kron *) intros ms HF. cbn [C11_Decomp.chol C11_Decomp.plu dtype mirror mirrorP]. rewrite !map_map. repeat split; f_equal; apply map_ext_in; intros m Hm;
+  (let '(P, L, U) := plu e in dtype P = mirrorP e /\ dtype L = mirrorL plu_sqrt e /\ dtype U = mirrorU plu_sqrt e).
+Proof. apply op_ind2; try (intros; cbn [C11_Decomp.chol C11_Decomp.plu mirrorL mirrorU]; try destruct (lu_o _ _) as [[p0 L0] U0]; try destruct plu_sqrt; repeat split; reflexivity).
+  - (* Kron *) intros ms HF. cbn [C11_Decomp.chol C11_Decomp.plu dtype mirror mirrorP mirrorL mirrorU]. rewrite !map_map. repeat split; f_equal; apply map_ext_in; intros m Hm;
     rewrite Forall_forall in HF; destruct (HF m Hm) as [E1 E2]; auto; destruct (plu m) as [[P L] U]; cbn [fst snd]; tauto.
-  - (* BDiag *) intros ms HF. cbn [C11_Decomp.chol C11_Decomp.plu dtype mirror mirrorP]. rewrite !map_map. repeat split; f_equal; apply map_ext_in; intros m Hm;
+  - (* BDiag *) intros ms HF. cbn [C11_Decomp.chol C11_Decomp.plu dtype mirror mirrorP mirrorL mirrorU]. rewrite !map_map. repeat split; f_equal; apply map_ext_in; intros m Hm;
     rewrite Forall_forall in HF; destruct (HF m Hm) as [E1 E2]; cbn [fst snd]; f_equal; auto; destruct (plu (fst m)) as [[P L] U]; cbn [fst snd]; tauto.
 Qed.
 End T.
@@ -134,8 +140,25 @@ From Coq Require Import ZArith.
 From Core Require Import FieldBase.
 Definition ex11_tree : op (R:=qi) := Kron [Diag 2 (qof_vec [qic 4%Z 1%positive 0%Z 1%positive; qic 9%Z 1%positive 0%Z 1%positive]); BDiag [(Scal (qic 4%Z 1%positive 0%Z 1%positive) 1, 2%nat)]].
 Definition ex11_sqrt (x : qi) : qi := if qi_eqb x (qic 4%Z 1%positive 0%Z 1%positive) then qic 2%Z 1%positive 0%Z 1%positive else if qi_eqb x (qic 9%Z 1%positive 0%Z 1%positive) then qic 3%Z 1%positive 0%Z 1%positive else qi0.
-Lemma ex11_ok : forall chol_o lu_o, wf ex11_tree = true /\ is_sq ex11_tree = true /\ cok chol_o ex11_sqrt ex11_tree /\ pok lu_o ex11_sqrt ex11_tree.
-Proof. intros ch lu. split; [vm_compute; reflexivity|]. split; [vm_compute; reflexivity|].
-  split; cbn [cok pok ex11_tree map fst]; (split; [vm_compute; reflexivity|]);
-  (constructor; [intros i Hi; destruct i as [|[|i]]; [vm_compute; reflexivity|vm_compute; reflexivity|lia]|]);
-  (constructor; [|constructor]); (split; [vm_compute; reflexivity|]); (constructor; [vm_compute; reflexivity|constructor]). Qed.
+Lemma ex11_ok : forall chol_o lu_o, wf ex11_tree = true /\ is_sq ex11_tree = true /\ cok chol_o ex11_sqrt ex11_tree /\ pok lu_o ex11_sqrt true ex11_tree.
+Proof. intros ch lu. split; [vm_compute; reflexivity|]. split; [vm_compute; reflexivity|]. split.
+  - cbn [cok ex11_tree map fst]. split; [vm_compute; reflexivity|].
+    constructor; [intros i Hi; destruct i as [|[|i]]; [vm_compute; reflexivity|vm_compute; reflexivity|lia]|].
+    constructor; [|constructor]. split; [vm_compute; reflexivity|]. constructor; [vm_compute; reflexivity|constructor].
+  - cbn [pok ex11_tree map fst]. split; [vm_compute; reflexivity|].
+    constructor; [intros _ i Hi; destruct i as [|[|i]]; [vm_compute; reflexivity|vm_compute; reflexivity|lia]|].
+    constructor; [|constructor]. split; [vm_compute; reflexivity|]. constructor; [intros _; vm_compute; reflexivity|constructor]. Qed.
+
+(* the pinned rule plu(Diagonal) = (I, sqrt D, sqrt D) cannot be right for a negative entry of a real operator: whatever real value the
+   square root returns, P L U differs from A (witness of flag plu_diagonal_negative_nan: Diagonal([-4])) *)
+From Coq Require Import QArith Qcanon.
+Definition m4 : qi := qic (-4)%Z 1%positive 0%Z 1%positive.
+Lemma plu_diag_refuted : forall lu_o (sqrt_o : qi -> qi), snd (sqrt_o m4) = Q2Qc 0 ->
+  ~ plugood (plu lu_o sqrt_o true (Diag 1 (fun _ => m4))) (Diag 1 (fun _ => m4)).
+Proof. intros lu sq Hre H. cbn [plu] in H. unfold plugood in H. destruct H as (_ & _ & _ & _ & _ & _ & F).
+  specialize (F 0%nat 0%nat (le_n 1) (le_n 1)). cbn [dto_op den sqrt_diag shape fst] in F. unfold mmul in F. cbn [sum] in F.
+  unfold eye, delta in F. cbn [Nat.eqb] in F. destruct (sq m4) as [a b]. cbn [snd] in Hre. subst b.
+  apply (f_equal fst) in F. cbn [r0 r1 radd rmul QIRing qiadd qimul qi0 qi1 fst snd m4 qic] in F.
+  assert (E : (a * a = qc (-4) 1)%Qc).
+  { transitivity (qc (-4) 1 * 1 - qc 0 1 * Q2Qc 0)%Qc; [rewrite <- F; change (Q2Qc 0) with 0%Qc; ring|]. change (qc 0 1) with 0%Qc. change (Q2Qc 0) with 0%Qc. ring. }
+  pose proof (Qcsq_nonneg a) as P. rewrite E in P. revert P. unfold Qcle. vm_compute. intros P. apply P. reflexivity. Qed.
